@@ -290,7 +290,8 @@ var subNeg = evid.Register("out-of-order", runNeg)
 
 func TestPropOutOfOrder(t *testing.T) {
 	rapid.Check(t, func(t *rapid.T) {
-		subNeg.Check(t, NegCase{Kind: rapid.SampledFrom([]string{"commit-before-parent", "table-before-block"}).Draw(t, "kind"), Tbl: rapid.IntRange(0, xfer.PoolSize-1).Draw(t, "tbl")})
+		// pool tables 0..4 and 6 have two blocks (5 has one: it cannot arrive "before one of its blocks")
+		subNeg.Check(t, NegCase{Kind: rapid.SampledFrom([]string{"commit-before-parent", "table-before-block"}).Draw(t, "kind"), Tbl: rapid.SampledFrom([]int{0, 1, 2, 3, 4, 6}).Draw(t, "tbl")})
 	})
 }
 
